@@ -232,8 +232,29 @@ def worn_start() -> None:
     env.LOG.drain()
 
 
+_EDITS = [0]
+
+
 def parse(text: str, want=None, newline_passthrough: bool = True) -> Outcome:
     """Chart.from_file on a StringIO (newline='' so CR LF reach the parser as written)."""
+    if len(text) % 9 == 5 and len(text) < 30000 and threading.current_thread() is threading.main_thread():
+        # what an application got is the application's: before this chart is read, the application reads the same text once, filters /
+        # sorts / clears / appends to the lists of THAT chart in place for its own purposes, trims the value lists the enums' helpers
+        # hand out, and throws the chart away. The chart read next shows no trace of it (a returned container that is also a cache
+        # entry, a shared class-level or module-level default, or a sibling's attribute would).
+        try:
+            junk = Chart.from_file(io.StringIO(text, newline=""))
+            if edit_in_place(junk):
+                _EDITS[0] += 1
+            del junk
+        except Exception:  # noqa
+            pass
+        try:  # what the probes recorded belongs to that other read, not to the one the caller is about to judge
+            from vmon import probes as _probes
+
+            _probes.drain()
+        except Exception:  # noqa
+            pass
     env.LOG.drain()
     fp = io.StringIO(text, newline="") if newline_passthrough else io.StringIO(text)
     _tmp = _path = None
@@ -353,6 +374,8 @@ def finish(rec) -> None:
     for a in contracts.advisories:
         rec.diag("advisory: " + a)
     rec.mon("log_records_seen", env.LOG.total)
+    if _EDITS[0]:
+        rec.mon("charts_edited_in_place_by_the_application_before_the_judged_chart_was_read", _EDITS[0])
     if gen.rerouted:
         rec.mon("tempo_values_rerouted", gen.rerouted)
 
@@ -550,3 +573,56 @@ def enumerate_attributes(chart) -> int:
         except Exception:  # noqa
             pass
     return len(objs)
+
+
+def edit_in_place(ch) -> bool:
+    """in-place edits of a returned chart's mutable containers (whatever is a list or dict; tuples and frozen things are left alone)"""
+    done = False
+
+    def wreck(x):
+        nonlocal done
+        try:
+            if isinstance(x, list) and x:
+                x.reverse()
+                x.append(x[0])
+                del x[1:]
+                done = True
+            elif isinstance(x, list):
+                x.append(filler)  # an empty list is the application's to append to as well
+                done = True
+            elif isinstance(x, dict) and x:
+                x.pop(next(iter(x)))
+                done = True
+        except Exception:  # noqa
+            pass
+
+    try:
+        st, ge = ch.sync_track, ch.global_events_track
+        filler = st.time_signature_events[0]
+        for x in (getattr(st.bpm_events, "events", None), st.time_signature_events, st.anchor_events, ge.text_events, ge.section_events, ge.lyric_events):
+            wreck(x)
+        for m in list(ch.instrument_tracks.values()):
+            for tr in list(m.values()):
+                for n in list(tr.note_events)[:3]:
+                    wreck(n.sustain if isinstance(n.sustain, list) else None)
+                wreck(tr.note_events)
+                wreck(tr.star_power_events)
+                wreck(tr.track_events)
+            wreck(m)
+        wreck(ch.instrument_tracks)
+    except Exception:  # noqa
+        pass
+    # ... and what the library's public helpers hand out (the value lists of its enums): the application trims them for its own menus
+    try:
+        import chartparse.instrument as I_
+        import chartparse.tick as T_
+
+        for en in (I_.Instrument, I_.Difficulty, I_.NoteTrackIndex, getattr(T_, "NoteDuration", None)):
+            fn = getattr(en, "all_values", None)
+            if fn is not None:
+                got = fn()
+                if isinstance(got, list) and got:
+                    del got[len(got) // 2:]
+    except Exception:  # noqa
+        pass
+    return done
